@@ -13,6 +13,7 @@ MODULES = [
  ("CsModel.tla", "life cycle of a countersignature (RFC 9338): parent, countersignature object, abbreviated bytes, wire; making (full/abbreviated), verifying, attaching, serialising, parsing, caller edits, bytes rewritten in transit, moving signature bytes between the two forms; nine properties model-checked (core scope exhaustively, full scope to a bounded number of steps)"),
  ("SignModel.tla", "life cycle of a COSE_Sign message with two signature slots: signing with a list of signers (failing / empty-handed ones), verifying with lists of 1-3 verifiers, serialising, parsing, caller edits of body, slot signatures (emptied, garbage, the other slot's bytes) and slot algorithms; eight properties model-checked (core scope exhaustively: 95 256 states / 22.4 M transitions; full scope to a bounded depth)"),
  ("KeyModel.tla", "life cycle of a COSE_Key object: built from a private / public key (EC2 P-256, OKP Ed25519, two pairs each), caller restrictions (alg, key_ops incl. empty, private part dropped), serialise, parse, Signer(), Verifier(), sign, verify with real signatures; five properties model-checked exhaustively (2 192 400 states / 52.6 M transitions)"),
+ ("EnvModel.tla", "life cycle of a hash envelope: produced by SignHashEnvelope (hash id / digest length / optional fields of the right and of a wrong type / base headers that smuggle governed labels / failing signer), consumed by VerifyHashEnvelope, handled as the ordinary COSE_Sign1 it is (decode, verify, holder edits of every governed parameter, re-sign, serialise), rewritten in transit (incl. a non-deterministic spelling of the protected map); nine properties model-checked to a bounded number of steps; `Gen_Env` / `Trace_Env` replay and judge its behaviours (owner C12; stages in C03 and C09)"),
  ("CoseKey.tla", "COSE_Key: `AcceptedKeyOK`, `SizesOK`, `CurveOKFor`, `DeriveAlg`, `SignerAllowed`, `VerifierAllowed`"),
  ("CoseCrypto.tla", "`NewSignerVerdict` / `NewVerifierVerdict` decision tables, `HashOf`, `RenderRS` / `I2OSP`"),
  ("Mutations.tla, CoseBases.tla", "structural mutation operators (Appendix B), valid re-spellings, base message trees"),
@@ -22,25 +23,47 @@ MODULES = [
  ("Trace_*.tla", "judges: `Fails(event)` = set of violated requirements of the property"),
 ]
 
+GAPS = [
+ "These are missed alarms of the machinery, recorded as the brief asks; none is a finding against go-cose. Each line names the device that would close the gap (all are extensions of an existing generator or judge, none needs a hook).",
+ "",
+ "* **C01-k** (resumable `SignMessage.Sign` keeps a stale first slot after a failed first call and changed inputs): `Trace_Sg` says nothing about signing a message that already carries signature bytes; it should demand that a successful `Sign` leaves every slot verifying (C01) - `SignModel` already generates the behaviour (failing second signer, body edit, sign again).",
+ "* **C01-l** (new x5chain / x5bag validation accepts `[][]byte` on encode, refuses the decoder's `[]any` of bstr): `GoValues` has no `[][]byte` value kind and the header grid has no labels 32 / 33; add both to `Gen_C13` / `Gen_C01` pools.",
+ "* **C02-k** (decoder reuses the receiver's raw-header buffers; a by-value copy of an earlier decoded message is overwritten by the next decode into the same variable): device (vi) of round 5 (value kept while its variable is decoded into again) exists for keys and headers only; add it to the message flows of `Gen_C02Mem` / `Gen_C19`.",
+ "* **C03-k** (unprotected `alg` consulted when the protected bucket has none): the C04 grid has the unprotected-alg column, the C03 wire mutations do not add an unprotected `alg` to messages verified with external data; add the edit to `Gen_Wire(mut)`.",
+ "* **C04-k** (`Headers.marshal()` pins `RawProtected` on constructed objects): needs the sequence sign, serialise, edit `alg` in the map, clear the signature, sign with a key of the new algorithm; `CoseModel` generates it, but `Trace_Model` tags the symptom C18 (marshal modified the message) and C02; add the C04 tag (key reached while the bytes it is handed name another algorithm) to the model stage.",
+ "* **C04-l** (protected map decoded into the caller's existing map; `h''` keeps the old entries): decode into a used destination is exercised with non-empty protected buckets only; add an image with a zero-length protected bucket after one with `alg` to the used-destination device of C04 / C19.",
+ "* **C05-k** (bare `ProtectedHeader.UnmarshalCBOR` accepts trailing bytes): C05 feeds its mutation space to the five message / signature decoders; the bare header decoders get only the header grid images. Feed `TopMutations` (trailing bytes, truncation) of protected / unprotected buckets to the two header decoders.",
+ "* **C06-k** (CWT-claims validation panics on a null date): label 15 with a claims map (and null / undefined inside it) is not in the value pool of `Gen_C13` / `Gen_C05` bases.",
+ "* **C07-k** (decoded list of two or more countersignatures: every pointer is the last entry): `wireflow` verifies the message and re-encodes; it does not verify each nested countersignature of a *decoded list* with its own key. Add per-entry verification to the wire flow (the re-encoding check of C09 should then see the duplicated entry as well).",
+ "* **C08-k** (bare header encoders return shared package-level slices for empty buckets): the harness overwrites *receive* buffers (round 5 device i) but not the byte slices the encoders return; scribble on every returned encoding in `hdrgrid` before the next encoding is compared.",
+ "* **C08-l** (`Key.MarshalCBOR` pads a short coordinate in place when the slice has spare capacity): fixture keys are built with exact-capacity slices; build coordinates as sub-slices of one `04 || X || Y` buffer and with spare capacity in `keyrt`.",
+ "* **C10-k** (a parent `Signature` whose signature is empty but not nil is countersigned): `CsModel`'s *emptied* edit stores nil; add the `[]byte{}` variant (the interpreter's `setsig` already has `nonnil`).",
+ "* **C10-l** (hand-written bstr head: a 256-byte parent signature gets `58 00`): `Gen_C10` uses symbolic 10-byte signatures; add parents signed by PS256 / 2048 (256 bytes) and padded symbolic signatures of 255 / 256 / 65535 / 65536 bytes - the structure comparison of `Trace_C10` then sees the head.",
+ "* **C12-k** (decoder limits 8 levels / 32 pairs / 1024 elements, no matching encoder limits): the wide / deep structures of round 5 (iv) go through C01 / C07, not through the envelope producer; add a base header of 33+ entries and a deep value to `Gen_C12`.",
+ "* **C14-k** (tags forbidden anywhere inside a COSE_Key): key round trips carry no tagged extra-parameter values; add `cbor.Tag`, `time.Time` and big integers to the optional parameters of `Gen_C14`.",
+ "* **C18-l** (countersignature verification writes `RawProtected` of a constructed parent passed by pointer): `CsModel` deliberately abstracts from the parent's retained raw bytes; compare the *full* projection of the parent before and after every verifying step in `Trace_Cs` (read-only is independent of the abstraction).",
+ "* **C20-k** (a signer that is also a `Verifier` and rejects its own output leaves the signature stored): the symbolic signers implement `Signer` only; add a signer kind that implements both and whose `Verify` fails.",
+]
+
 PIPE = {
  "C01": "Gen_C01 -> memflow -> Trace_C01",
  "C02": "Gen_Wire(respell) -> wireflow -> Trace_Wire[C02]; Gen_C02Mem -> memflow -> Trace_C02Mem",
- "C03": "Gen_Wire(mut) -> wireflow -> Trace_Wire[C03]; CoseModel MC + Gen_Model -> memflow -> Trace_Model[C03:]; CsModel stage [C03:]; SignModel stage [C03:]",
+ "C03": "Gen_Wire(mut) -> wireflow -> Trace_Wire[C03]; CoseModel MC + Gen_Model -> memflow -> Trace_Model[C03:]; CsModel stage [C03:]; SignModel stage [C03:]; EnvModel stage [C03:]",
  "C04": "Gen_C04 -> memflow -> Trace_C04; CoseModel stage [C04:]; CsModel stage [C04:]",
  "C05": "Gen_C05 (+ byte-mutation driver) -> C05 exec (all five decoders) -> Trace_C05",
  "C06": "Gen_C05 + Gen_C15 + Gen_C13 images + byte-mutation driver -> nopanic -> Trace_C06",
  "C07": "Gen_Wire(respell) -> wireflow -> Trace_Wire[C07]",
  "C08": "Gen_C08 + Gen_C13 -> hdrgrid (6 encodings x 2 processes) -> Trace_C08; Gen_C08Seq + Gen_C12 producers -> memflow -> Trace_C08Seq",
- "C09": "Gen_Wire(respell) -> wireflow -> Trace_Wire[C09]; CoseModel stage [C09:]; CsModel stage [C09:]",
+ "C09": "Gen_Wire(respell) -> wireflow -> Trace_Wire[C09]; CoseModel stage [C09:]; CsModel stage [C09:]; EnvModel stage [C09:]",
  "C10": "Gen_C10 -> memflow -> Trace_C10; CsModel MC + Gen_Cs -> memflow -> Trace_Cs[C10:]",
  "C11": "Gen_C11 -> memflow -> Trace_C11; SignModel MC + Gen_Sg -> memflow -> Trace_Sg[C11:]",
- "C12": "Gen_C12 -> memflow (+ sessions: one world, one verifier) -> Trace_C12",
+ "C12": "Gen_C12 -> memflow (+ sessions: one world, one verifier) -> Trace_C12; EnvModel MC + Gen_Env -> memflow -> Trace_Env[C12:]",
  "C13": "Gen_C13 -> hdrgrid -> Trace_C13",
  "C14": "Gen_C14 (toy-field MC + fixtures) + keyrt driver -> keyrt -> Trace_C14; KeyModel stage [C14:]",
  "C15": "Gen_C15 -> keydec -> Trace_C15; KeyModel MC + Gen_Key -> memflow -> Trace_Key[C15:]",
  "C16": "Gen_C16 -> ecdsa-render / ecdsa-native / ecdsa-accept -> Trace_C16",
  "C17": "Gen_C17 -> factory / digest -> Trace_C17",
- "C18": "Gen_C18 (thread model MC, schedules) -> conc (gated goroutines); Gen_C18Seq -> memflow; racestress under -race -> Trace_C18",
+ "C18": "Gen_C18 (thread model MC, schedules) -> conc (gated goroutines); Gen_C18Seq -> memflow; racestress under -race -> Trace_C18; KeyModel stage [C18:]",
  "C19": "Gen_C19 -> memflow -> Trace_C19; CoseModel stage [C19:]; CsModel stage [C19:]",
  "C20": "Gen_C20 -> memflow -> Trace_C20; CoseModel stage [C20:]; CsModel stage [C20:]; SignModel stage [C20:]",
 }
@@ -120,18 +143,21 @@ def main():
             "* `keydec`, `keyrt`: COSE_Key decoder grid and key round trips. `factory`, `digest`, `ecdsa-*`: factories, digest entry points, ECDSA renderings. `conc`, `racestress`: gated schedule replay (GOMAXPROCS(1), callbacks as yield points) and ungated stress for `-race`. `nopanic`: all 9 decoding entry points and follow-ups under `recover()` and a deadline.",
             "* Fixtures: `/verif/fixtures/keys.json` (RSA 1024/2047/2048/3072; EC scalars per curve with full, 1- and 2-byte-short x / y and tiny d; Ed25519 seeds), verified at load.", ""]
     sec += ["### 13.4 Seeded changes and which check catches which", "",
-            "198 changes to go-cose that break a property while compiling and passing the repository's 809 tests, each written by a fresh sub-agent that saw only the property text and a scratch "
-            "worktree (round 1, suffix a/b: pinned tree, 3 re-based by hand onto the repaired tree, 1 dropped because the nil-bstr repair neutralised it; rounds 2-5, suffixes c/d, e/f, g/h, i/j: "
+            "238 changes to go-cose that break a property while compiling and passing the repository's 809 tests, each written by a fresh sub-agent that saw only the property text and a scratch "
+            "worktree (round 1, suffix a/b: pinned tree, 3 re-based by hand onto the repaired tree, 1 dropped because the nil-bstr repair neutralised it; rounds 2-6, suffixes c/d, e/f, g/h, i/j, k/l: "
             "repaired tree; from round 3 on the brief asked for subtler mechanisms - state kept between calls, values with their own encoders, first-call effects, pointer / value paths, aliasing, "
             "error paths - and from round 3 / 5 on it listed the mechanisms already used for the property and asked for others; one round-4 candidate was dropped because the existing suite fails with it). "
             "Each was confirmed here (demo fails with the patch, passes without, suite passes with it: `tools/validate_mutants.sh`) and is kept as `seeded/<id>/{patch.diff, demo_test.go, meta.json}`. "
-            "`tools/matrix_par.sh` applies each to a scratch worktree and runs the owning property's quick check (`VERIF_REPO`); `/repo` itself is never modified. "
-            "Missed by the owning check when first run: 3 of 39 (round 1), 12 of 40 (round 2), 14 of 40 (round 3), 19 of 39 (round 4), 24 of 40 (round 5) - the later rounds were aimed at what the "
-            "earlier ones had shown the checks to cover. Every miss led to a strengthening of the generator, harness or judge of the owning property (git history of `/verif`; summarised in section 0 "
-            "and in the as-built notes of section 6); after each round every change of all rounds so far was reported by its owning property's quick check (one, C03-j, only in some runs: its effect "
-            "needs a particular interleaving inside one verifier; C18 reports it in every run). The table lists the reasons printed (first two) and sibling checks confirmed to report the change as well.", "",
+            "`tools/matrix_par.sh` (or `tools/matrix_round.sh` from a `vp run` snapshot) applies each to a scratch worktree and runs the owning property's quick check (`VERIF_REPO`); `/repo` itself is never modified. "
+            "Missed by the owning check when first run: 3 of 39 (round 1), 12 of 40 (round 2), 14 of 40 (round 3), 19 of 39 (round 4), 24 of 40 (round 5), 20 of 40 (round 6) - the later rounds were aimed at what the "
+            "earlier ones had shown the checks to cover. Every miss of rounds 1-5 led to a strengthening of the generator, harness or judge of the owning property (git history of `/verif`; summarised in section 0 "
+            "and in the as-built notes of section 6); after each of those rounds every change of all rounds so far was reported by its owning property's quick check (one, C03-j, only in some runs: its effect "
+            "needs a particular interleaving inside one verifier; C18 reports it in every run). **Round 6 is only partly worked off** (the session ended): the hash-envelope life-cycle model (`EnvModel`, "
+            "section 0) and the COSE_Key life-cycle stage added to C18 turned C03-l, C09-k and C18-k into reported changes; the rows marked NOT caught below are open gaps, listed with what each needs in section 13.5. "
+            "The table lists the reasons printed (first two) and sibling checks confirmed to report the change as well.", "",
             "| id | change | outcome of the owning property's quick check |", "|---|---|---|"]
     sec += matrix_rows()
+    sec += ["", "### 13.5 Open gaps after round 6 (changes the owning quick check does not report yet, and what each needs)", ""] + GAPS
     sec += ["", "---------------------------------------------------------------------------", "", ""]
     out = head + "\n".join(sec) + app
     open(os.path.join(V, "DESIGN.md"), "w").write(out)
